@@ -26,6 +26,7 @@ import (
 	"time"
 
 	"github.com/kstenerud/go-concise-encoding/cbe"
+	"github.com/kstenerud/go-concise-encoding/ce/events"
 	"github.com/kstenerud/go-concise-encoding/configuration"
 	"github.com/kstenerud/go-concise-encoding/cte"
 	"github.com/kstenerud/go-concise-encoding/nullevent"
@@ -53,6 +54,7 @@ type costJob struct {
 	Reps   int    `json:"reps"`   // timing repetitions (min is reported)
 	Label  string `json:"label"`
 	Relax  bool   `json:"relax"`  // scaling documents: object / marker count limits out of the way
+	Bare   bool   `json:"bare"`   // decode into a receiver without rules
 }
 
 type costResult struct {
@@ -287,7 +289,10 @@ func c08Child(c *Check) {
 		}
 		for r := 0; r < reps; r++ {
 			nEvents := 0
-			recv := rules.NewRules(nullevent.NewNullEventReceiver(), cfg)
+			var recv events.DataEventReceiver = rules.NewRules(nullevent.NewNullEventReceiver(), cfg)
+			if j.Bare {
+				recv = nullevent.NewNullEventReceiver()
+			}
 			var decErr error
 			var pan interface{}
 			runtime.GC()
@@ -425,6 +430,21 @@ func scalingDoc(family string, n int) (format string, doc []byte) {
 			b.WriteString("/* c */ 1\n// x\n")
 		}
 		b.WriteString("]")
+	case "cte/unclosed-edges", "cte/unclosed-edges-bare":
+		b.WriteString("c0\n")
+		for b.Len() < n {
+			b.WriteString("@(1 2 ")
+		}
+	case "cte/unclosed-records-bare":
+		b.WriteString("c0\n")
+		for b.Len() < n {
+			b.WriteString("@a{")
+		}
+	case "cte/unclosed-lists":
+		b.WriteString("c0\n")
+		for b.Len() < n {
+			b.WriteString("[1 ")
+		}
 	case "cte/u8-array":
 		b.WriteString("c0\n@u8x[")
 		for b.Len() < n {
@@ -439,7 +459,7 @@ func scalingDoc(family string, n int) (format string, doc []byte) {
 
 func checkC08(c *Check) {
 	c.Rule = "Alloc.tla models the CBE reader (a length field announces the bytes that follow; the validator sees the announcement before the reader reserves twice that size) and proves Bounded (what is reserved never exceeds start + 2*max(limit, reader ceiling, bytes present + 1)) and RefusedIsFree (an announcement beyond the limit reserves nothing). TLC emits every (field kind: array chunk, short string, media type, media data, custom data, identifier, big integer, second chunk) x (announced length class: 0, fits, exact, one more than present, limit, limit+1, 2^32-1, 2^40, 2^63-1) x (bytes present) x (MaxArraySizeBytes setting) case with the model's verdict; each becomes real CBE documents (element widths 1 bit, 1 and 8 bytes) decoded with rules in a child process: the process must survive, the verdict must match, and runtime.MemStats.TotalAlloc around the one Decode call must stay within base + 64*len(doc) + 3*(the model's reservation bound) - refused announcements within base + 64*len(doc). Scaling: CBE and CTE document families (tiny tokens, deep nesting, long/escaped strings, map keys, markers, comments, arrays) at n, 2n, 4n bytes: allocation per byte bounded by a per-format constant and alloc(4n) <= 6*alloc(n); CPU time (min of repetitions, getrusage; re-measured before it is believed) t(4n) <= 10*t(n) or t(4n) <= 3*t(2n). non-trivial = announced length differs from the bytes present or a scaling point; distinct = documents"
-	c.Assumptions = []string{"runtime.MemStats.TotalAlloc as the measure of memory reserved by one Decode", "per-byte constants 64 (CBE) and 2048 (CTE, ANTLR token stream and parse tree) bytes per document byte", "CPU time ratios are measured on a shared machine: threshold 10 for a 4x longer document, minimum of several runs", "the child's address space is capped (ulimit -v 12 GB) so that a runaway reservation fails there"}
+	c.Assumptions = []string{"runtime.MemStats.TotalAlloc as the measure of memory reserved by one Decode", "per-byte constants 64 (CBE) and 16384 (CTE; refused documents cost about 6000 in ANTLR's error path, ANTLR token stream and parse tree) bytes per document byte", "CPU time ratios are measured on a shared machine: threshold 10 for a 4x longer document, minimum of several runs", "the child's address space is capped (ulimit -v 12 GB) so that a runaway reservation fails there"}
 	thorough := c.Tier == "thorough"
 	limits, lens := "{1024, 65536, 1048576}", "{0, 1, 8, 200}"
 	if thorough {
@@ -490,7 +510,11 @@ func checkC08(c *Check) {
 	}
 	scaleID := map[scaleKey]int{}
 	families := []string{"cbe/small-ints", "cbe/nested-lists", "cbe/short-strings", "cbe/map-int-keys", "cbe/long-string-chunks", "cbe/markers-and-refs",
-		"cte/small-ints", "cte/nested-lists", "cte/long-string", "cte/escaped-string", "cte/map-keys", "cte/comments", "cte/u8-array"}
+		"cte/small-ints", "cte/nested-lists", "cte/long-string", "cte/escaped-string", "cte/map-keys", "cte/comments", "cte/u8-array",
+		"cte/unclosed-lists", "cte/unclosed-edges", "cte/unclosed-edges-bare", "cte/unclosed-records-bare"}
+	// adversarial families: documents that are refused; sizes of their own (the known ones are slow)
+	refusedFamily := map[string]int{"cte/unclosed-lists": 40000, "cte/unclosed-edges": 9000, "cte/unclosed-edges-bare": 9000, "cte/unclosed-records-bare": 3000}
+	knownSlow := map[string]string{"cte/unclosed-edges": "cte-unclosed-edges-quadratic", "cte/unclosed-edges-bare": "cte-unclosed-edges-quadratic", "cte/unclosed-records-bare": "cte-unclosed-records-superlinear-without-rules"}
 	baseN := map[string]int{"cbe": 2000000, "cte": 80000}
 	if thorough {
 		baseN = map[string]int{"cbe": 8000000, "cte": 300000}
@@ -498,9 +522,14 @@ func checkC08(c *Check) {
 	scaleDocLen := map[int]int{}
 	for _, fam := range families {
 		for _, mult := range []int{1, 2, 4} {
-			format, doc := scalingDoc(fam, baseN[fam[:3]]*mult)
+			n := baseN[fam[:3]]
+			reps := 5
+			if rn, ok := refusedFamily[fam]; ok {
+				n, reps = rn, 2
+			}
+			format, doc := scalingDoc(fam, n*mult)
 			id++
-			jobs = append(jobs, costJob{ID: id, Format: format, Doc: hex.EncodeToString(doc), Reps: 5, Label: fam, Relax: true})
+			jobs = append(jobs, costJob{ID: id, Format: format, Doc: hex.EncodeToString(doc), Reps: reps, Label: fam, Relax: true, Bare: strings.HasSuffix(fam, "-bare")})
 			scaleID[scaleKey{fam, mult}] = id
 			scaleDocLen[id] = len(doc)
 		}
@@ -559,7 +588,7 @@ func checkC08(c *Check) {
 		}
 	}
 	// scaling
-	perByte := map[string]uint64{"cbe": 64, "cte": 2048}
+	perByte := map[string]uint64{"cbe": 64, "cte": 16384}
 	var report []string
 	for _, fam := range families {
 		format := fam[:3]
@@ -579,7 +608,7 @@ func checkC08(c *Check) {
 				bad = true
 				break
 			}
-			if r.Err != "" {
+			if _, refused := refusedFamily[fam]; r.Err != "" && !refused {
 				machineryFail("C08: the scaling document %s is not accepted: %s", fam, r.Err)
 			}
 		}
@@ -587,6 +616,13 @@ func checkC08(c *Check) {
 			continue
 		}
 		report = append(report, fmt.Sprintf("%s: %d B/byte, alloc x%.1f, cpu x%.1f (%.0f ms at 4n)", fam, r4.Alloc/uint64(l4), float64(r4.Alloc)/float64(r1.Alloc), float64(r4.CPUns)/float64(r1.CPUns), float64(r4.CPUns)/1e6))
+		slow := func(a, b, d costResult) bool {
+			return a.CPUns > 20e6 && float64(d.CPUns) > 10*float64(a.CPUns) && float64(d.CPUns) > 3*float64(b.CPUns)
+		}
+		superlinear := r4.Alloc > base+slack+perByte[format]*uint64(l4) || float64(r4.Alloc) > 6*float64(r1.Alloc)+float64(slack) || slow(r1, r2, r4)
+		if superlinear && knownSlow[fam] != "" && c.Finding(knownSlow[fam]) {
+			continue
+		}
 		if r4.Alloc > base+slack+perByte[format]*uint64(l4) {
 			c.Violation(fmt.Sprintf("decoding a %s document of %d bytes allocates %d bytes: more than %d per document byte", fam, l4, r4.Alloc, perByte[format]), wit)
 			continue
@@ -595,19 +631,23 @@ func checkC08(c *Check) {
 			c.Violation(fmt.Sprintf("allocation grows faster than linearly for %s documents: %d bytes at n=%d, %d bytes at 4n", fam, r1.Alloc, l1, r4.Alloc), wit)
 			continue
 		}
-		slow := func(a, b, d costResult) bool {
-			return a.CPUns > 20e6 && float64(d.CPUns) > 10*float64(a.CPUns) && float64(d.CPUns) > 3*float64(b.CPUns)
-		}
 		if slow(r1, r2, r4) {
 			// measure again, longer, before believing a timing
 			var again []costJob
 			for _, mult := range []int{1, 2, 4} {
-				format, doc := scalingDoc(fam, baseN[fam[:3]]*mult)
-				again = append(again, costJob{ID: 1000000 + mult, Format: format, Doc: hex.EncodeToString(doc), Reps: 15, Label: fam, Relax: true})
+				n, reps := baseN[fam[:3]], 15
+				if rn, ok := refusedFamily[fam]; ok {
+					n, reps = rn, 3
+				}
+				format, doc := scalingDoc(fam, n*mult)
+				again = append(again, costJob{ID: 1000000 + mult, Format: format, Doc: hex.EncodeToString(doc), Reps: reps, Label: fam, Relax: true, Bare: strings.HasSuffix(fam, "-bare")})
 			}
 			rr := runCostJobs(c, again)
 			r1, r2, r4 = rr[1000001], rr[1000002], rr[1000004]
 			wit["cpu_ns_second_measurement"] = []int64{r1.CPUns, r2.CPUns, r4.CPUns}
+		}
+		if slow(r1, r2, r4) && knownSlow[fam] != "" && c.Finding(knownSlow[fam]) {
+			continue
 		}
 		if slow(r1, r2, r4) {
 			c.Violation(fmt.Sprintf("decoding time grows faster than linearly for %s documents: %.1f ms at n=%d, %.1f ms at 4n", fam, float64(r1.CPUns)/1e6, l1, float64(r4.CPUns)/1e6), wit)
